@@ -268,7 +268,7 @@ def sorted_lists(ctx, sorted_locals):
             # then exactly one sort, unconditionally
             t = N.term(e)
             effs = t[3] if t[0] == "mut" else []
-            if t[0] != "mut" or not re.fullmatch(r"Iterator::collect\(HashSet::iter\(P0\.\w+\)\)", show(t[2])) or len(effs) != 1 \
+            if t[0] != "mut" or not re.fullmatch(r"Iterator::collect\(P0\.\w+\)", show(t[2])) or len(effs) != 1 \
                     or effs[0][0] != "mutcall" or effs[0][2] != "" or effs[0][-1] or len(effs[0][3]) != 1:
                 ctx.bad("C06.3", key, site(node), "the repetition iterates `%s`, which is not a Vec sorted (once, unconditionally) right after collection from the set"
                         % show(t)[:300])
